@@ -381,6 +381,34 @@ def run(repo, rep, tier):
     rep.ob("C15.R2", bad_[0], "custom_style_name: the generated name carries max(numbers in use) + 1", ok,
            "" if ok else f"the name is built as `{bad_[1]}`: with 'Custom Style 3' and 'Custom Style 2' present (in that order) it repeats a name in use, and the new style replaces the older one of that name",
            key="C15.R2@custom-style-name:fresh")
+    # the de-duplication key keeps its fields apart (a tuple, not the fields' texts run together)
+    keyvars = {U(n.slice) for n in ast.walk(ucs) if isinstance(n, ast.Subscript) and U(n.value) == "cell_styles" and isinstance(n.slice, ast.Name)}
+    glued = []
+    n_fp = 0
+    for n in body_walk(ucs):
+        tgt, val = (n.targets[0], n.value) if isinstance(n, ast.Assign) and len(n.targets) == 1 else ((n.target, n.value) if isinstance(n, ast.AugAssign) else (None, None))
+        if tgt is None or U(tgt) not in keyvars:
+            continue
+        n_fp += 1
+
+        def parts(e):
+            """operands of a chain of + (the key variable itself is the left end of an accumulation)"""
+            if isinstance(e, ast.BinOp) and isinstance(e.op, ast.Add):
+                return parts(e.left) + parts(e.right)
+            return [e]
+        for op in parts(val):
+            if isinstance(op, ast.Name) and op.id in keyvars:
+                continue
+            if not isinstance(op, ast.Tuple):
+                glued.append((n, U(op)[:50]))
+            else:
+                for el in op.elts:
+                    if isinstance(el, (ast.BinOp, ast.JoinedStr)) and len([x for x in ast.walk(el) if isinstance(x, ast.Attribute) and "style" in U(x)]) > 1:
+                        glued.append((n, U(el)[:50]))
+    ok = n_fp > 0 and not glued
+    rep.ob("C15.R2", glued[0][0] if glued else ucs, f"the cell-style de-duplication key is a tuple of fields ({n_fp} assignments)", ok,
+           "" if ok else f"`{glued[0][1]}` is run together with its neighbours as text: different styles give the same key (background RGB(1, 23, 4) and RGB(12, 3, 4) are both '1234') "
+           "and the second cell is saved with the first cell's style", key="C15.R2@fingerprint:separated")
     # vertical/horizontal halves of alignment
     ok = "style.alignment.horizontal" in U(aps) and "style.alignment.vertical" in U(acs) and "cell.style.alignment.vertical" in U(ucs)
     rep.ob("C15.R2", acs, "horizontal alignment -> paragraph style, vertical alignment -> cell style and fingerprint", ok, "", key="C15.R2@alignment-halves")
@@ -715,10 +743,12 @@ def sym_after(value, sym, cur_S, cur_L, cur_mode=None):
 
 
 VARIANTS = [
+    M("revert-fix-fingerprint-glued-colour", "model.py", "                            str(cell.style.bg_color.r),\n                            str(cell.style.bg_color.g),\n                            str(cell.style.bg_color.b),\n                        )",
+      "                            str(cell.style.bg_color.r)\n                            + str(cell.style.bg_color.g)\n                            + str(cell.style.bg_color.b),\n                        )", "C15.R2"),
     M("revert-fix-custom-style-name-last", "model.py", 'return "Custom Style " + str(max(custom_style_ids) + 1)', 'return "Custom Style " + str(custom_style_ids[-1] + 1)', "C15.R2"),
     M("custom-style-name-by-count", "model.py", 'return "Custom Style " + str(max(custom_style_ids) + 1)', 'return "Custom Style " + str(len(set(custom_styles)) + 1)', "C15.R2"),
-    M("cell-style-skipped-for-plain-styles", "model.py", "                if cell._style is not None and cell._style._update_cell_style:\n                    fingerprint = (",
-      "                if cell._style is not None and cell._style._update_cell_style:\n                    if cell._style._cell_style_obj_id is None and cell._style.bg_color is None:\n                        continue\n                    fingerprint = (", "C15.R2"),
+    M("cell-style-skipped-for-plain-styles", "model.py", "                if cell._style is not None and cell._style._update_cell_style:\n",
+      "                if cell._style is not None and cell._style._update_cell_style:\n                    if cell._style._cell_style_obj_id is None and cell._style.bg_color is None:\n                        continue\n", "C15.R2"),
     M("add-stroke-right-indexed-by-row", "model.py", "            layer_ids = sidecar_obj.right_column_stroke_layers\n            row_column_index = col\n            origin = row",
       "            layer_ids = sidecar_obj.right_column_stroke_layers\n            row_column_index = row\n            origin = col", "C15.R4"),
     M("add-stroke-bottom-in-top-layers", "model.py", "            layer_ids = sidecar_obj.bottom_row_stroke_layers", "            layer_ids = sidecar_obj.top_row_stroke_layers", "C15.R4"),
@@ -740,8 +770,8 @@ VARIANTS = [
              "                self._model.set_cell_border(self._table_id, border_row_num, col, side, border_value)\n        self._model.add_stroke(self._table_id, row, col, side, border_value, length)\n\n    def set_cell_formatting"),)),
     M("right-neighbour-wrong", "model.py", "self.cell_for_stroke(table_id, \"left\", row, col + 1)", "self.cell_for_stroke(table_id, \"left\", row, col - 1)", "C15.R3"),
     M("update-forgets-italic", "model.py", "        style_obj.char_properties.italic = style.italic\n", "", "C15.R2"),
-    M("fingerprint-no-wrap", "model.py", "                        + str(cell.style.text_wrap)\n", "", "C15.R2"),
-    M("fingerprint-no-image", "model.py", "                    if cell._style.bg_image is not None:\n                        fingerprint += cell._style.bg_image.filename\n", "", "C15.R2"),
+    M("fingerprint-no-wrap", "model.py", "                        str(cell.style.text_wrap),\n", "", "C15.R2"),
+    M("fingerprint-no-image", "model.py", "                    if cell._style.bg_image is not None:\n                        fingerprint += (cell._style.bg_image.filename,)\n", "", "C15.R2"),
     M("patch-end-ge", "model.py", "elif origin in stroke_range and (origin + length) == stroke_end:", "elif origin in stroke_range and (origin + length) >= stroke_end:", "C15.R4"),
     M("patch-start-origin", "model.py", "                    stroke_run.origin = origin + length\n                    stroke_run.length = stroke_run.length - length", "                    stroke_run.origin = origin + length\n                    stroke_run.length = stroke_run.length - length - 1", "C15.R4"),
     M("bottom-layers-swapped", "model.py", "            layer_ids = sidecar_obj.bottom_row_stroke_layers\n            row_column_index = row", "            layer_ids = sidecar_obj.bottom_row_stroke_layers\n            row_column_index = col", "C15.R4"),
